@@ -957,6 +957,16 @@ Lemma recover_complete_view_refuted_lemma :
   rc_exit_code (rc_view true (c08_patch 300 [48; 48; 48] c08_twin)) = 3.
 Proof. vm_compute. repeat split. Qed.
 
+(* the generation field of the same entry damaged to 65535 (known finding C08-F2, repaired in /repo d14d2a78 as far
+   as the exit status goes): the entry is still dropped - object 4 0 is gone - but it is reported: status 3 in
+   both modes *)
+Lemma unrepresentable_generation_reported_lemma :
+  rc_lookup (4, 0)%Z (r_table (rc_view true (c08_patch 304 [54; 53; 53; 51; 53] c08_twin))) = None /\
+  r_recon (rc_view true (c08_patch 304 [54; 53; 53; 51; 53] c08_twin)) = false /\
+  rc_exit_code (rc_view true (c08_patch 304 [54; 53; 53; 51; 53] c08_twin)) = 3 /\
+  rc_exit_code (rc_view false (c08_patch 304 [54; 53; 53; 51; 53] c08_twin)) = 3.
+Proof. vm_compute. repeat split. Qed.
+
 (* ... while a damaged startxref, a missing xref section or a wrong offset do trigger the reconstruction, and the
    reconstructed view is the twin's (instances of recon_table_spec on the witness; status 3) *)
 Lemma recover_complete_view_instances_lemma :
